@@ -730,7 +730,31 @@ impl Engine for PairEngine {
     fn name(&self) -> &'static str {
         "iomodel-pair"
     }
+    fn real_time(&self) -> bool {
+        true
+    }
     fn run_case(&self, c: &PairCase) -> CaseReport {
+        // Over real sockets a read that stays pending for 2 s although bytes are outstanding may be
+        // the machine; the case is repeated and the same stall three times in a row is a loss.
+        let rep = self.run_once(c);
+        if !rep.classes.contains(&"socket-read-guard-expired-inconclusive") {
+            return rep;
+        }
+        let rep2 = self.run_once(c);
+        if !rep2.classes.contains(&"socket-read-guard-expired-inconclusive") {
+            return rep2;
+        }
+        let mut rep3 = self.run_once(c);
+        if rep3.classes.contains(&"socket-read-guard-expired-inconclusive") {
+            let name = PAIR_KINDS[c.kind as usize % 4];
+            rep3.violate(format!("C18/{name}/bytes-or-eof-never-arrive-repeatedly"), format!("{c:?}: in three runs in a row a read stayed pending for 2 s although written bytes (or the end of stream) were outstanding"));
+        }
+        rep3
+    }
+}
+
+impl PairEngine {
+    fn run_once(&self, c: &PairCase) -> CaseReport {
         use tokio::io::{AsyncReadExt, AsyncWriteExt};
         let mut rep = CaseReport::default();
         let name = PAIR_KINDS[c.kind as usize % 4];
